@@ -69,6 +69,25 @@ def run(ctx):
     for t in texts:
         ctx.nontrivial_key(t)
     ctx.stage("random-trees", trees=n, rejected=len(bad))
+    # ---- dotted notation, composed systematically: every head of 1-2 data, every tail shape (atom, (), list, dotted list,
+    # vector, quoted datum, string, character), and the malformed neighbours (nothing or two data after the dot, two dots,
+    # a dot first) - the specification's reader decides what each denotes
+    heads = ["a", "1 2", "(x) #t", "'q"]
+    tails = ["b", "()", "(b)", "(b c)", "(b . c)", "(b . ())", "( )", "#()", "#(1)", "'b", "'()", "\"s\"", "#\\)", "5", "-1/2"]
+    texts = []
+    for h in heads:
+        for tl in tails:
+            for q in ("'", ""):
+                texts += ["%s(%s . %s)" % (q, h, tl), "%s(%s .%s)" % (q, h, tl) if tl[0] in "(\"'#" else "%s(%s . %s )" % (q, h, tl),
+                          "%s(%s . %s z)" % (q, h, tl), "%s(%s . %s . z)" % (q, h, tl), "%s((%s . %s) %s)" % (q, h, tl, h), "%s#((%s . %s))" % (q, h, tl)]
+    texts += ["'(. a)", "'(a .)", "'(.)", "'( . )", "'(a . . b)", "'(a .. b)", "'(a ... b)", "'(a . b c)", "'#(a . b)", "'(())", "'(() . ())", "'((). ())"]
+    texts = sorted(set(texts))
+    lex, reads = R.run_texts(ctx, texts, "dotted")
+    bad = R.validate_texts(ctx, texts, lex, reads, None, "dotted")
+    report(ctx, texts, bad, "dotted-notation")
+    for t in texts:
+        ctx.nontrivial_key(t)
+    ctx.stage("dotted-notation", texts=len(texts), rejected=len(bad), exhaustive=True)
     ctx.sample({"tree_text": texts[0][:300]})
     ctx.assumptions += ["a decimal literal must read as one of the two binary32 neighbours of its exact value (single or double rounding)",
                         "spellings outside the supported grammar (#true, #\\space, #u8(, quasiquotation, \\x escapes, .5, +.a, non-ASCII identifiers) are Unsupported: only C07 applies"]
